@@ -34,7 +34,7 @@ CHECKS = {
    ref="DESIGN.md 4/C07"),
  "C11": dict(
    technique="bounded-exhaustive + proptest over templates built as segment lists (the expected output is computed from the segments, never by tokenising) and over (sql, values) pairs produced by build(); oracle = by-construction expected text and value order; inject_parameters(build) == to_string",
-   text="Exploration: every segment list of <= 4 (quick) / 5 (thorough) segments over a 13-segment alphabet x 3 backends x 2 APIs, random templates with quoted segments containing marks, doubled marks, reordered / repeated $n, and random statements whose built form is re-injected and compared with the inline form.",
+   text="Exploration: every segment list of <= 4 (quick) / 5 (thorough) segments over a 13-segment alphabet x 3 backends x 2 APIs, random templates with quoted segments containing marks, doubled marks, reordered / repeated $n, and random statements whose built form is re-injected and compared with the inline form. The thorough tier adds a coverage-guided libFuzzer campaign over template segment lists decoded from bytes (target tmpl), through the same oracle; its executions, edge coverage and samples are folded into the evidence file (coverage.fuzz_campaigns).",
    note="Adjacency rules that make a template's reading unambiguous are enforced by construction (see domain_restrictions in the evidence); a lone `$` on Postgres, out-of-range $n and too few values are outside the domain.",
    ref="DESIGN.md 4/C11"),
  "C15": dict(
